@@ -51,6 +51,25 @@ func c18Sync(dst, src *c18Node) bool {
 	return dst.book.DagLoaded()
 }
 
+var c18Sink atomic.Uint64
+
+// touch reads every field of a vertex the way a serialiser would (lengths and first bytes of the byte fields).
+func touch(v *accountant.Vertex) {
+	if v == nil {
+		return
+	}
+	t := &v.Transaction
+	x := v.Weight + uint64(len(v.Signature)) + uint64(len(v.SignerPublicAddress)) + uint64(v.CreatedAt.Nanosecond()) + uint64(v.Hash[0]) + uint64(v.LeftParentHash[0]) + uint64(v.RightParentHash[0])
+	x += uint64(len(t.Data)) + uint64(len(t.Subject)) + uint64(len(t.IssuerSignature)) + uint64(len(t.ReceiverSignature)) + uint64(len(t.IssuerAddress)) + uint64(len(t.ReceiverAddress)) + t.Spice.Currency + t.Spice.SupplementaryCurrency + uint64(t.CreatedAt.Nanosecond()) + uint64(t.Hash[0])
+	if len(t.Data) > 0 {
+		x += uint64(t.Data[0])
+	}
+	if len(v.Signature) > 0 {
+		x += uint64(v.Signature[0])
+	}
+	c18Sink.Add(x)
+}
+
 // c18Mix runs the concurrent workload on the target for the given duration.
 func c18Mix(w *core.WorkerCtx, target *c18Node, feeders []*c18Node, users []*ledger.Actor, dur time.Duration, withTruncate bool, tag string) {
 	r := w.R
@@ -174,7 +193,9 @@ func c18Mix(w *core.WorkerCtx, target *c18Node, feeders []*c18Node, users []*led
 				if stop.Load() {
 					return false
 				}
-				target.book.ReadVertex(ctx, k.(ledger.H))
+				if rv, err := target.book.ReadVertex(ctx, k.(ledger.H)); err == nil {
+					touch(&rv)
+				}
 				cnt["read_vertex"].Add(1)
 				target.book.ReadTransactionByHash(ctx, v.(ledger.H))
 				cnt["read_trx"].Add(1)
@@ -189,8 +210,9 @@ func c18Mix(w *core.WorkerCtx, target *c18Node, feeders []*c18Node, users []*led
 		for !stop.Load() {
 			sctx, cancel := context.WithCancel(ctx)
 			n := 0
-			for range target.book.StreamDAG(sctx) {
+			for v := range target.book.StreamDAG(sctx) {
 				n++
+				touch(v) // a syncing peer serialises every field of what it is handed
 				if n%97 == 0 {
 					time.Sleep(50 * time.Microsecond)
 				}
@@ -198,6 +220,27 @@ func c18Mix(w *core.WorkerCtx, target *c18Node, feeders []*c18Node, users []*led
 			cancel()
 			cnt["stream"].Add(1)
 			time.Sleep(2 * time.Millisecond)
+		}
+	}()
+	// a slow peer: it is in the middle of a stream nearly all the time (also when a truncation runs)
+	wg.Add(1)
+	go func() {
+		defer wg.Done()
+		for !stop.Load() {
+			sctx, cancel := context.WithCancel(ctx)
+			n := 0
+			for v := range target.book.StreamDAG(sctx) {
+				n++
+				touch(v)
+				if n%10 == 0 {
+					time.Sleep(400 * time.Microsecond)
+				}
+				if stop.Load() {
+					break
+				}
+			}
+			cancel()
+			cnt["stream"].Add(1)
 		}
 	}()
 	wg.Add(1)
@@ -444,7 +487,7 @@ func init() {
 	core.Register(&core.Check{
 		Spec: core.Spec{
 			Prop:        "C18",
-			Rule:        "The monitor binary is built with -race and the workload runs in child processes with GORACE=halt_on_error=0 log_path=...; the parent parses the logs: every 'WARNING: DATA RACE' block is normalised (function names of both access stacks, line numbers stripped), de-duplicated by the pair of innermost repository frames (outermost entry points in the detail) and is a violation unless listed; reports without a repository frame count as inconclusive (harness). Workload per batch on one loaded node (Config.Truncate=2000) for >= 9 s (quick) / 30 s (thorough), i.e. several periods of the real 2 s retry ticker: 2 feeder nodes delivering their own branches (one of them hands every 4th vertex over child-before-parent and a second peer goroutine delivers every other vertex that got parked once more half a millisecond later (the same vertex from another peer, while the first copy is parked), after which its branch queues up behind the orphan buffer, so that the orphan buffer is in use while the real ticker drains it; the retry hook is not used), 2 local proposers, 2 balance readers, a history reader, a by-hash reader, a repeating DAG stream consumer, trusted-store updates; odd batches pre-build a 1080 vertex ledger and add truncation: a vertex of weight 3600+ makes the node's own truncation loop run the real truncate in its goroutine, plus truncations through the hook. A run in which vertices were parked but none was admitted by the real ticker is inconclusive. Non-trivial = every workload; evaluations = operations executed.",
+			Rule:        "The monitor binary is built with -race and the workload runs in child processes with GORACE=halt_on_error=0 log_path=...; the parent parses the logs: every 'WARNING: DATA RACE' block is normalised (function names of both access stacks, line numbers stripped), de-duplicated by the pair of innermost repository frames (outermost entry points in the detail) and is a violation unless listed; reports without a repository frame count as inconclusive (harness). Workload per batch on one loaded node (Config.Truncate=2000) for >= 9 s (quick) / 30 s (thorough), i.e. several periods of the real 2 s retry ticker: 2 feeder nodes delivering their own branches (one of them hands every 4th vertex over child-before-parent and a second peer goroutine delivers every other vertex that got parked once more half a millisecond later (the same vertex from another peer, while the first copy is parked), after which its branch queues up behind the orphan buffer, so that the orphan buffer is in use while the real ticker drains it; the retry hook is not used), 2 local proposers, 2 balance readers, a history reader, a by-hash reader, a repeating DAG stream consumer and a slow one (in mid-stream nearly all the time) that read every field of the vertices they are handed, as does the by-hash reader, trusted-store updates; odd batches pre-build a 1080 vertex ledger and add truncation: a vertex of weight 3600+ makes the node's own truncation loop run the real truncate in its goroutine, plus truncations through the hook. A run in which vertices were parked but none was admitted by the real ticker is inconclusive. Non-trivial = every workload; evaluations = operations executed.",
 			Assumptions: []string{"the Go race detector reports only races that occur in the executed schedule", "the snapshot hook is not used while the workload runs (only VerifParkedLen, which takes the buffer's own lock)"},
 			MinEvals:    2000, MinNontriv: 2,
 			MinCounters: map[string]int{"c18_propose": 50, "c18_deliver": 50, "c18_balance": 50, "c18_stream": 5, "c18_deliver_orphan_first": 4},
